@@ -32,6 +32,7 @@ MA 02110-1301, USA. */
 #endif
 
 #include <stdio.h>
+#include <limits.h>
 #include <string.h>
 
 #include "mpir.h"
@@ -67,7 +68,9 @@ gmp_snprintf_format (struct gmp_snprintf_t *d, const char *fmt,
 
   ASSERT (d->size >= 0);
 
-  avail = d->size;
+  /* one call of vsnprintf is measured in ints; a buffer of more than INT_MAX
+     bytes must not come out negative, which meant "no space" below */
+  avail = (d->size > (size_t) INT_MAX ? INT_MAX : (int) d->size);
   if (avail > 1)
     {
       va_copy (ap, orig_ap);
